@@ -23,6 +23,10 @@ TABLE = [
  ('C10-rejection-never-closed', 'fixed', 'fe817a1', 'rejected replier: error frame is written but the sink is never closed/flushed until unrelated traffic arrives'),
  ('C10-rejection-slot-overwritten', 'fixed', 'fe817a1', 'second late replier overwrites the single rejection slot: the first rejected sink is dropped with its error frame unflushed'),
  ('C11-unwrap-message-panic', 'fixed', 'cd2996c', 'a requestor (reqrep.rs:218) or replier (router.rs:105) sending a non-Message frame panics the router in Frame::unwrap_message (frame.rs:106)'),
+ ('C03-messages-lost-batched', 'fixed', '2222222', 'with batching, the final partially filled batch never reaches the subscriber although finish() returned Ok (framed into the FramedWrite buffer, QUIC stream finished underneath it)'),
+ ('C03-messages-lost-unbatched', 'fixed', '2222222', 'items accepted with feed() are dropped by finish(): the framed writer is not flushed before the QUIC stream is finished'),
+ ('C03-messages-differ-batched', 'fixed', '2222222', 'batched stream: final partial batch lost and earlier batch reversed (both defects at once)'),
+ ('C03-messages-reordered-batched', 'fixed', '3333333', 'members of every batch are yielded in reverse order (Subscriber pops the decoded batch from the tail)'),
  ('C06-decoder-panic-decode-message-batch', 'fixed', '0000000', 'decode_message_batch panics on malformed input (short header: get_u64; oversize element: split_to; huge count: capacity overflow)'),
  ('C06-decoder-panic-subscriber-chain', 'fixed', '0000000', 'subscriber chain (decompress -> unbatch -> decode) panics inside decode_message_batch on malformed batch bodies'),
  ('C06-oversized-allocation-decode-message-batch', 'fixed', '0000000', 'decode_message_batch allocates count x 32 bytes for an attacker-chosen count (512 MiB for 8 input bytes)'),
@@ -38,7 +42,7 @@ def main():
         for l in log:
             if l.split(' ',1)[1].startswith(prefix): return l.split()[0]
         return None
-    subst = {'0000000': sha('fix: decode_message_batch'), '1111111': sha('fix: BincodeCodec::decode')}
+    subst = {'0000000': sha('fix: decode_message_batch'), '1111111': sha('fix: BincodeCodec::decode'), '2222222': sha('fix: Publisher::finish flushes'), '3333333': sha('fix: Subscriber yields the messages of a batch')}
     out = []
     for f in sorted(glob.glob(os.path.join(HERE,'findings','*.json'))):
         b = os.path.basename(f)[:-5]
